@@ -707,8 +707,8 @@ func runA(raw json.RawMessage) *core.Violation {
 			si++
 		}
 		pi := si + 1
-		for pi < len(frames) && frames[pi] != "init/profile" && len(c.Conc) > 0 {
-			pi++ // with broadcasts racing the handshake a live event may sit between Success and the replay
+		for pi < len(frames) && frames[pi] != "init/profile" {
+			pi++ // a broadcast racing the handshake / the replay may sit between Success and the replay
 		}
 		if pi >= len(frames) || frames[pi] != "init/profile" {
 			return core.V("login|replay-does-not-start-with-profile", "frames after a correct login: %v", clip(frames))
